@@ -75,11 +75,13 @@ def textbook_epoch(H, T, shared, head, tail, nv, eps, a, b, rng, gamma, move_oth
     H = H.astype(np.float64).copy(); T = H if shared else T.astype(np.float64).copy()
     nxt = nxt.copy(); nneg = nneg.copy(); rng = [list(map(int, r)) for r in rng]
     fired, ndraw, clipped = [], 0, 0
+    textbook_epoch.fragile = False      # a step at 0 < d^2 < 1e-6: see the caller
     for i in range(len(head)):
         if nxt[i] <= n:
             fired.append(i)
             j, k = int(head[i]), int(tail[i])
             diff = H[j] - T[k]; d2 = float(diff @ diff)
+            if 0 < d2 < 1e-6: textbook_epoch.fragile = True
             if d2 > 0:
                 d = math.sqrt(d2)
                 coeff = -2.0 * a * b * d ** (2 * b - 2) / (1.0 + a * d ** (2 * b))
@@ -95,6 +97,7 @@ def textbook_epoch(H, T, shared, head, tail, nv, eps, a, b, rng, gamma, move_oth
                 rng[j], r = py_tau(rng[j]); ndraw += 1
                 k2 = r % nv
                 diff = H[j] - T[k2]; d2 = float(diff @ diff)
+                if 0 < d2 < 1e-6: textbook_epoch.fragile = True
                 if d2 > 0:
                     d = math.sqrt(d2)
                     coeff = 2.0 * gamma * b / ((0.001 + d2) * (1.0 + a * d ** (2 * b)))
@@ -229,11 +232,17 @@ def run(ctx):
             due = [i for i in range(len(eps)) if pre["nxt"][i] <= n]
             if visited != [i for i in due if eps[i] != 0]:
                 ctx.fail("single_epoch:visits_not_the_due_edges", "visited %s, due %s at epoch %d" % (visited, due, n), desc)
-            if np.abs(tH - H).max() > PTOL * (1 + np.abs(tH).max()):
+            # Near-coincident end points (0 < d^2 < 1e-6, e.g. two points attracted onto each other within one epoch): the repulsive
+            # coefficient ~ 2*gamma*b / 0.001 is clipped to +-4 with the SIGN of a difference that is pure float32-vs-float64 rounding;
+            # the update rule is discontinuous there, so positions computed in two precisions legitimately differ by up to 8*alpha
+            # (seed 7: 1.04).  Such (graph, epoch) states are counted and their positions are not compared (clocks and draws still are).
+            fragile = textbook_epoch.fragile
+            if fragile: ctx.count("epochs_with_near_coincident_points_positions_not_compared")
+            if not fragile and np.abs(tH - H).max() > PTOL * (1 + np.abs(tH).max()):
                 ctx.fail("single_epoch:positions_not_textbook_update", "max deviation %g from the float64 textbook update" % np.abs(tH - H).max(), desc)
             if not g["shared"] and not g["move_other"] and not np.array_equal(T, pre["T"]):
                 ctx.fail("single_epoch:reference_layout_moved", "tail embedding changed with move_other=False", desc)
-            if not g["shared"] and g["move_other"] and np.abs(tT - T).max() > PTOL * (1 + np.abs(tT).max()):
+            if not fragile and not g["shared"] and g["move_other"] and np.abs(tT - T).max() > PTOL * (1 + np.abs(tT).max()):
                 ctx.fail("single_epoch:tail_not_textbook_update", "max deviation %g" % np.abs(tT - T).max(), desc)
             if [list(map(int, r)) for r in rs] != trng:
                 ctx.fail("single_epoch:negative_sampling_draws", "RNG states differ from the number of draws the schedule prescribes", desc)
@@ -250,6 +259,8 @@ def run(ctx):
             ctx.count("edges_fired", len(fired)); ctx.count("negative_draws", ndraw)
             if gno < 1 and n == start: ctx.sample(desc, 1)
             edges = "[" + "; ".join("mkEdgeF %d%%nat %d%%nat %s %s" % (int(h), int(t), fl(e), fl(en)) for h, t, e, en in zip(g["head"], g["tail"], eps, epns)) + "]"
+            if fragile:
+                continue          # (the Coq model runs in binary64, the kernel in float32: same discontinuity)
             terms.append("(mkCase %s %s %s %s %s %s %s %s %s %s %s %s %s %s %s %s %s %s %s)" % (
                 fl(g["a"]), fl(g["b"]), fl(g["gamma"]), fl(alpha), fl(float(n)), zl(g["nv"]), "true" if g["move_other"] else "false",
                 "true" if g["shared"] else "false", edges, ll(pre["H"]), "[]" if g["shared"] else ll(pre["T"]), flist(pre["nxt"]), flist(pre["nneg"]), rngl(pre["rs"]),
